@@ -146,7 +146,7 @@ def run_orthconv(spec):
                 devM = float(np.abs(M2 - Q.dot(M0).dot(Q.T)).max() / max(np.abs(M0).max(), 1e-300))
                 worst = max(worst, devM / 1e-6)
                 sigs.add(('orthconv', k, init, qi, ref.n_iter_))
-                if devM > 1e-6:
+                if not devM <= 1e-6:
                     viol.append(V('MMC.fit', 'orthogonal', 'MMC(init=%r) run to convergence on family member %d: rotating the points changes the learned '
                                   'matrix by %.3g relative (n_iter_ %d vs %d)' % (init, k, devM, ref.n_iter_, e2.n_iter_), ['orthogonal', 'converged']))
     return dict(evals=evals, sigs=sigs, viol=viol, headroom={'orthogonal_converged_mmc': worst},
@@ -178,7 +178,7 @@ def run_orthlarge(spec):
         devb = float(np.abs(e2.bounds_ - ref.bounds_).max() / np.abs(ref.bounds_).max())
         worst = max(worst, max(devM, devb) / TOL_ITML)
         sigs.add(('orthlarge', qi))
-        if max(devM, devb) > TOL_ITML:
+        if not (devM <= TOL_ITML and devb <= TOL_ITML):
             viol.append(V('ITML.fit', 'orthogonal', 'ITML on 1300 distinct points: a rotation changes the learned matrix by %.3g relative and the '
                           'default bounds_ by %.3g relative [map %d]' % (devM, devb, qi), ['orthogonal', 'more_than_1000_points']))
     return dict(evals=evals, sigs=sigs, viol=viol, headroom={'orthogonal_large:itml': worst},
@@ -243,7 +243,7 @@ def run_case(spec):
                 dev = rel_dev(d0, dist_on(e2, ds2))
                 worst = max(worst, dev / tol)
                 sigs.add(('translation', name, clab, tuple(t), dsn))
-                if dev > tol:
+                if not dev <= tol:
                     viol.append(V(name + '.fit', 'translation', 'translating all points by %s changes the learned distances by %.3g relative '
                                   '[%s, %s]' % (t.tolist(), dev, clab, dsn), ['translation', clab]))
         return dict(evals=evals, sigs=sigs, viol=viol, headroom={'translation:' + ('loose' if name in LOOSE else ('itml' if name.startswith('ITML') else 'tight')): worst},
@@ -290,7 +290,7 @@ def run_case(spec):
                 dev = rel_dev(d0, dist_on(e2, ds))
                 worst = max(worst, dev / TOL_TIGHT)
                 sigs.add(('perm', name, tuple(over.items()), pi, dsn))
-                if dev > TOL_TIGHT:
+                if not dev <= TOL_TIGHT:
                     viol.append(V(name + '.fit', 'permutation', 'listing the samples in another order changes the distances by %.3g relative '
                                   '[%s, %s]' % (dev, over, dsn), ['permutation']))
         return dict(evals=evals, sigs=sigs, viol=viol, headroom={'permutation': worst},
@@ -310,7 +310,7 @@ def run_case(spec):
                 dev2 = rel_dev(d0 / c, e2.pair_distance(ds.X[P]))
                 worst = max(worst, max(dev, dev2) / 1e-10)
                 sigs.add(('scale', name, tuple(over.items()), c, dsn))
-                if max(dev, dev2) > 1e-10:
+                if not (dev <= 1e-10 and dev2 <= 1e-10):
                     viol.append(V(name + '.fit', 'scaling', 'scaling all features by %g does not scale the distances by 1/c (relative deviation '
                                   '%.3g) [%s, %s]' % (c, max(dev, dev2), over, dsn), ['scaling', 'c=%g' % c]))
         return dict(evals=evals, sigs=sigs, viol=viol, headroom={'scaling': worst},
@@ -334,7 +334,7 @@ def run_case(spec):
             devM = float(np.abs(M2 - Q.dot(M0).dot(Q.T)).max() / np.abs(M0).max())
             worst = max(worst, max(dev, devM) / tl)
             sigs.add(('orth', name, tuple(over.items()), qi, dsn))
-            if max(dev, devM) > tl:
+            if not (dev <= tl and devM <= tl):
                 viol.append(V(name + '.fit', 'orthogonal', 'mapping the points through an orthogonal matrix changes the learned distances '
                               '(%.3g relative; |M\' - Q M Q^T| %.3g) [%s, %s, map %d]' % (dev, devM, over, dsn, qi), ['orthogonal']))
         return dict(evals=evals, sigs=sigs, viol=viol, headroom={'orthogonal' + (':itml' if name.startswith('ITML') else ''): worst},
